@@ -100,6 +100,16 @@ class Folder:
                 return _ew(lambda x, y: complex(x, y), self.fold(node.args[0]), self.fold(node.args[1]))
             if short in ("zeros_like",) and node.args:
                 return _ew(lambda x: 0.0, self.fold(node.args[0]))
+            if short in ("ones_like",) and node.args:
+                return _ew(lambda x: 1.0, self.fold(node.args[0]))
+            if short in ("comb",) and len(node.args) == 2:
+                import math as _m
+
+                a, b = self.fold(node.args[0]), self.fold(node.args[1])
+                return _m.comb(int(a), int(b))
+            if short in ("min", "max") and node.args and not node.keywords:
+                vals = [self.fold(a) for a in node.args]
+                return (min if short == "min" else max)(vals)
             if short == "arange":
                 args = [self.fold(a) for a in node.args]
                 if all(isinstance(a, (int, float)) for a in args) and 1 <= len(args) <= 3:
